@@ -171,9 +171,10 @@ func (ex *Exec) pointAsserts(fr *Frame, st *State, callee string, ord int, fname
 		return
 	}
 	for j, pa := range fr.contract.Asserts {
-		if pa.Callee != callee || (pa.Ord != 0 && pa.Ord != ord) {
+		if pa.Callee != callee || (pa.Ord > 0 && pa.Ord != ord) {
 			continue
 		}
+		ex.assertHit[j] = true
 		label := fmt.Sprintf("after-%s#%d:%s", callee, ord, clauseLabel(pa.Clause, j))
 		g, err := ex.compileBool(fr, st, fr.entry, pa.Clause.E, true)
 		if err != nil {
